@@ -55,6 +55,55 @@ fn c15_h11_pyramid_intersect_gapped() {
 	kani::cover!(l == 5 && !lc.is_empty());
 }
 
+// C09: intersect_geo_bbox narrows EVERY level by the tile box the geographic box maps to at that level. The subject here is the
+// level iteration (from_geo itself is decided by the c15_h12/h13 harnesses), so from_geo is replaced by a fixed non-empty
+// box per level; the pyramid is symbolic on all 32 levels, in particular empty on low levels and populated above them.
+fn from_geo_model(level: u8, _bbox: &GeoBBox) -> anyhow::Result<TileBBox> {
+	let max = ((1u64 << level) - 1) as u32;
+	Ok(TileBBox { level, x_min: max / 4, y_min: 0, x_max: max / 2, y_max: max, max })
+}
+
+// SHAPE: 0 = all levels symbolic; 1 = levels 0..=2 concretely empty (coverage starts at zoom 3); 2 = level 4 concretely empty
+// (a gap). The concrete shapes keep an implementation that stops or skips at empty levels cheap for the solver.
+fn intersect_geo_levels<const SHAPE: u8>() {
+	let mut a = any_pyramid();
+	if SHAPE == 1 {
+		a.level_bbox[0] = TileBBox::new_empty(0).unwrap();
+		a.level_bbox[1] = TileBBox::new_empty(1).unwrap();
+		a.level_bbox[2] = TileBBox::new_empty(2).unwrap();
+	}
+	if SHAPE == 2 {
+		a.level_bbox[4] = TileBBox::new_empty(4).unwrap();
+	}
+	let g = GeoBBox(0.0, 0.0, 1.0, 1.0);
+	let l = any_level();
+	let p = any_coord2();
+	let mut c = a.clone();
+	c.intersect_geo_bbox(&g);
+	let want = from_geo_model(l, &g).unwrap();
+	let (la, lc) = (a.get_level_bbox(l), c.get_level_bbox(l));
+	assert_eq!(inb(lc, &p), inb(la, &p) && inb(&want, &p), "intersect_geo_bbox does not narrow this level to the box of the geographic bbox");
+	assert!(lc.level == l && valid_bbox(lc));
+	kani::cover!(l > 4 && a.get_level_bbox(0).is_empty() && !lc.is_empty(), "coverage that starts above level 0");
+	kani::cover!(!la.is_empty() && lc.is_empty());
+}
+macro_rules! geo_levels {
+	($name:ident, $shape:expr) => {
+		#[kani::proof]
+		#[kani::unwind(34)]
+		#[kani::stub(std::fmt::format, crate::verif_kani::stubs::fmt_format)]
+		#[kani::stub(std::backtrace::Backtrace::capture, crate::verif_kani::stubs::backtrace_capture)]
+		#[kani::stub(u32::pow, crate::verif_kani::stubs::u32_pow)]
+		#[kani::stub(crate::types::tile_bbox::TileBBox::from_geo, from_geo_model)]
+		fn $name() {
+			intersect_geo_levels::<$shape>();
+		}
+	};
+}
+geo_levels!(c09_intersect_geo_levels, 0);
+geo_levels!(c09_intersect_geo_levels_from3, 1);
+geo_levels!(c09_intersect_geo_levels_gap4, 2);
+
 // include_bbox_pyramid: level-wise bounding union. The included pyramid is symbolic on ONE level (concrete per
 // instance) and empty elsewhere: iter_levels' filter position then stays concrete (32 symbolic levels: out of memory).
 fn pyramid_include<const L: usize>() {
@@ -108,7 +157,7 @@ fn pyramid_overlaps<const L: usize>() {
 	let bx = any_bbox_at(L as u8);
 	assert_eq!(a.overlaps_bbox(&bx), exists_common(a.get_level_bbox(L as u8), &bx), "overlaps_bbox differs from level-wise overlap");
 	kani::cover!(a.overlaps_bbox(&bx));
-	kani::cover!(!a.overlaps_bbox(&bx) && !bx.is_empty() && !a.get_level_bbox(L as u8).is_empty());
+	kani::cover!(L == 0 || (!a.overlaps_bbox(&bx) && !bx.is_empty() && !a.get_level_bbox(L as u8).is_empty()));
 }
 pinst!(c15_h11_pyramid_overlaps_l0, pyramid_overlaps, 0);
 pinst!(c15_h11_pyramid_overlaps_l9, pyramid_overlaps, 9);
